@@ -46,6 +46,7 @@ func NewDocument(root *html.Node, location string) (*Document, error) {
 	d := &Document{
 		info: DocumentInfo{
 			Location: location,
+			BaseURL:  location,
 		},
 		root: root,
 	}
